@@ -84,6 +84,17 @@ func c03Case(r *evid.Run, tier string, idx int, g *rng.R) {
 		adoc.NSQuirks(g, d, true)
 		d.Finish()
 	}
+	if idx%25 == 11 {
+		// a wide element and an element with many attributes: sizes around the usual strategy thresholds
+		ws := adoc.Thresholds[:8]
+		if tier == "thorough" {
+			ws = adoc.Thresholds
+		}
+		adoc.Widen(g, d, rng.Pick(g, ws), false)
+		adoc.ManyAttrs(g, d, rng.Pick(g, []int{5, 9, 12, 16, 17, 40}))
+		d.Finish()
+		r.Count("cases_with_wide_elements", 1)
+	}
 	w, err := newWorld(d)
 	if err == nil && idx%4 == 3 {
 		// every fourth case runs the evaluator on the independent Cursor implementation (R-ref)
